@@ -385,7 +385,8 @@ theorem inferType_order_dependent :
 
 open Op.Infer in
 /-- **Tie A (code → model).**  `Variable.highest_membership` (terms of any type `T`; `mu t` is what
-    `term.membership(x)` returns or raises; an `Activated` is the pair of the term and the degree): the exception of
+    `term.membership(x)` returns or raises; an `Activated` is the pair of the term and the degree its constructor
+    stores, `nan_to_num(degree, nan=0, neginf=0, posinf=1)`): the exception of
     the model `Op.Infer.highestMembership` (any exception of a membership function but `ValueError`) or its result. -/
 theorem code_highestMembership {T : Type} [Inhabited T] (mu : T → Py.M (X Rat)) (terms : List T) :
     match highestMembership mu terms with
@@ -394,11 +395,21 @@ theorem code_highestMembership {T : Type} [Inhabited T] (mu : T → Py.M (X Rat)
   Op.Infer.code_highestMembership mu terms
 
 open Op.Infer in
-/-- the result of `highest_membership` for membership functions that do not raise: `None` iff no term has a positive
-    degree; otherwise a term of the variable with its degree, positive, and exceeded by no term of the variable -/
-theorem highestMembership_spec {τ : Type} (f : τ → X Rat) (terms : List τ) :
+/-- the result of `highest_membership` for membership functions that do not raise and do not return `+inf`: `None` iff
+    no term has a positive degree; otherwise a term of the variable with its degree, positive, and exceeded by no term
+    of the variable -/
+theorem highestMembership_spec {τ : Type} (f : τ → X Rat) (terms : List τ) (hfin : ∀ t ∈ terms, f t ≠ .pinf) :
     ∃ r, highestMembership (fun t => .ok (f t)) terms = .ok r ∧ HighestOf f terms r :=
-  Op.Infer.highestMembership_spec f terms
+  Op.Infer.highestMembership_spec f terms hfin
+
+open Op.Infer in
+/-- why `+inf` is excluded: `Activated(term, degree)` stores `nan_to_num(degree, posinf=1)`, so a term of degree `+inf`
+    is held with degree 1 – a later term of degree 5 replaces it, and alone it is returned with degree 1 (the model
+    compared with `+inf` until the differential stream of this property showed the implementation's answer) -/
+theorem highestMembership_inf :
+    highestMembership (fun (t : Nat) => .ok (if t = 0 then X.pinf else X.fin 5)) [0, 1] = .ok (some (1, X.fin 5)) ∧
+    highestMembership (fun (_ : Nat) => .ok X.pinf) [0] = .ok (some (0, X.fin 1)) :=
+  Op.Infer.highestMembership_inf
 
 open Op.Infer in
 /-- **Tie A (code → model).**  `Variable.fuzzify` for a scalar `x` (`fv a padding` is the text
